@@ -294,8 +294,10 @@ def _dtype_job(args):
         for dt in DTYPES:
             A = bits.astype(dt)
             bad = _dtype_contracts(A)
-            if bad is None and dt in ("bool", "int64"):
-                bad = _dtype_contracts(np.asfortranarray(A))
+            if bad is None:
+                bad = _dtype_contracts(np.asfortranarray(A))          # column-major copy of the same matrix (for one row / one column it is the same layout)
+                if bad is not None:
+                    bad += " [Fortran-ordered input]"
             if bad is not None:
                 out.append((m, n, code, dt, bad))
     return (hi - lo) * len(DTYPES), out
@@ -305,7 +307,7 @@ def dtype_family(ctx):
     """GROUND: the element type of a 'binary matrix' is part of the input.  EVERY 0/1 matrix with m*n <= 10 (thorough: 13) entries, in seven integer / boolean dtypes
     (bool and int64 also in Fortran order), through all four routines."""
     fam = ctx.family("C18.ground.all_small_matrices_all_dtypes", core.GROUND, "native+oracle",
-                     "rref / rank / null_space / rref_and_basis_change contracts on every 0/1 matrix of the listed sizes in dtypes " + ", ".join(DTYPES))
+                     "rref / rank / null_space / rref_and_basis_change contracts (values, argument unmodified) on every 0/1 matrix of the listed sizes in dtypes " + ", ".join(DTYPES) + ", each in C and Fortran order")
     fam.exhaustive = True
     cap = 10 if ctx.quick else 13
     fam.domain = f"all shapes m x n with m*n <= {cap}: every 0/1 matrix x {len(DTYPES)} dtypes"
@@ -320,7 +322,7 @@ def dtype_family(ctx):
         for m, n, code, dt, why in bad:
             A = [[(code >> (i * n + j)) & 1 for j in range(n)] for i in range(m)]
             ctx.record(fam, REFUTED, {"shape": [m, n], "dtype": dt})
-            ctx.violate(fam, f"dtype:{m}x{n}:{code}:{dt}", f"{m}x{n} 0/1 matrix {A} of dtype {dt}: {why}", {"args": [{"ndarray": A, "dtype": dt}], "clause": why})
+            ctx.violate(fam, f"dtype:{m}x{n}:{code}:{dt}", f"{m}x{n} 0/1 matrix {A} of dtype {dt}: {why}", {"args": [{"ndarray": A, "dtype": dt, "order": "F" if "Fortran" in why else "C"}], "clause": why})
 
 
 def replay(data):
@@ -331,7 +333,11 @@ def replay(data):
         print("replay file carries no failing input (obligation:", data.get("obligation"), ")")
         print(data.get("detail"))
         return 1
-    arrs = [np.array(a["ndarray"], dtype=a.get("dtype", "int8")) for a in args]
+    arrs = [np.array(a["ndarray"], dtype=a.get("dtype", "int8"), order=a.get("order", "C")) for a in args]
+    if (data.get("obligation") or "").endswith("all_small_matrices_all_dtypes"):
+        bad = _dtype_contracts(arrs[0])
+        print("contracts on", arrs[0].tolist(), arrs[0].dtype, "F-order" if arrs[0].flags.f_contiguous and not arrs[0].flags.c_contiguous else "C-order", "->", bad or "hold")
+        return 1 if bad else 0
     name = data["key"].split("[")[0].split(":")[0]
     print("replaying", data["key"], "on the real function")
     if name.startswith(("rref", "bounded")) and len(arrs) == 1:
